@@ -1,7 +1,7 @@
 (* RunSer.v — serialize_json of the model vs the implementation, and the Draft-6 reading of the
    emitted document (Spec6.v) vs the element's own verdicts. *)
 From Coq Require String. Import String.StringSyntax.
-From Statham.Model Require Import Str Json Elem Validate Equality SerJson Spec6 RunHelpers SerFrag.
+From Statham.Model Require Import Str Json Elem Validate Equality SerJson Spec6 RunHelpers SerFrag Resolve.
 Local Open Scope string_scope.
 Local Open Scope list_scope.
 
@@ -37,4 +37,14 @@ Definition run_doc_case (c : list (str * list str) * list (str * list str) * jso
       let always := v6 O WAlways doc v in
       if snd vb then (if strict || always then [] else [4%nat])
       else (if strict && always then [4%nat] else [])) vals)
+  end.
+
+(* the same on the RAW document: its references are resolved here (Resolve.resolve_doc) instead of by the
+   harness; 11 = a reference dangles or the references are cyclic *)
+Definition run_doc_case_raw (c : list (str * list str) * list (str * list str) * json * list (json * bool)) : list nat :=
+  match c with (re, fm, doc, vals) =>
+    match resolve_doc 200 doc with
+    | Some R => run_doc_case (re, fm, R, vals)
+    | None => [11%nat]
+    end
   end.
